@@ -274,8 +274,18 @@ func ruleR02b(c *Check) {
 	ex := g.Ex
 	var bad []string
 	for _, s := range c.G.CallsTo("os/exec.CommandContext", "os/exec.Command") {
-		if engine.InPackage(s.Parent(), "execution") && engine.TopFunc(s.Parent()) != ex.RunCommand {
-			bad = append(bad, c.P.FuncName(s.Parent()))
+		// the runner or a private helper of it (the construction of the exec.Cmd extracted)
+		if top := engine.TopFunc(s.Parent()); engine.InPackage(s.Parent(), "execution") && top != ex.RunCommand {
+			runnerRegion := regionOf(c, ex.RunCommand)
+			private := runnerRegion[top]
+			for _, cf := range c.G.CallerFuncs(top) {
+				if !runnerRegion[engine.TopFunc(cf)] {
+					private = false // somebody else can start commands through the helper
+				}
+			}
+			if !private {
+				bad = append(bad, c.P.FuncName(s.Parent()))
+			}
 		}
 	}
 	c.Require(len(bad) == 0, "R02b", "single-command-runner", "the only exec.Command* in internal/execution is in "+c.P.FuncName(ex.RunCommand), "commands are also started from "+strings.Join(bad, ", "), "-")
@@ -283,7 +293,17 @@ func ruleR02b(c *Check) {
 	okC := true
 	for _, f := range callers {
 		if f != ex.ExecCommand && f != ex.OutputChecks {
-			okC = false
+			// an extracted loop body / wrapper: private to the executor or to the check runner
+			up := c.G.CallerFuncs(f)
+			okUp := len(up) > 0
+			for _, g := range up {
+				if t := engine.TopFunc(g); t != ex.ExecCommand && t != ex.OutputChecks {
+					okUp = false
+				}
+			}
+			if !okUp {
+				okC = false
+			}
 		}
 	}
 	c.Require(okC, "R02b", "command-runner-callers", "the command runner is called only by the command executor and the output-check runner", "the command runner is called from "+names(c, callers), "-")
